@@ -174,7 +174,7 @@ Definition is_reccrash (op : rop) : bool := match op with RecCrash _ => true | _
 Lemma rstep_flags_waits cfg s op :
   is_main op = false -> is_reccrash op = false -> flagged (snd (rstep cfg s op)) /\ waits_ok (snd (rstep cfg s op)).
 Proof.
-  intros Hm Hc. destruct op as [p k|p d|p d|p o|p o|code wm lows| |ps| |p f t|cerr pcs|m| |p]; try discriminate; cbn [rstep].
+  intros Hm Hc. destruct op as [p k|p d|p d|p o|p o|code wm lows| |ps| |p f t|cerr pcs|m| |p|p d]; try discriminate; cbn [rstep].
   - apply pump_flagged.
   - split; [apply rec_step_flagged|apply rec_step_waits].
   - apply ahead_step_flagged.
@@ -189,6 +189,8 @@ Proof.
   - destruct (file_all _ _). split; [intros e []|reflexivity].
   - destruct m; split; try (intros e []); reflexivity.
   - split; [apply out_nil_flagged|apply out_nil_waits].
+  - unfold wild_step. destruct (pget p (cli s)); [|split; [apply out_nil_flagged|apply out_nil_waits]].
+    destruct (pget p (active s)); [split; [apply rec_step_flagged|apply rec_step_waits]|split; [apply out_nil_flagged|apply out_nil_waits]].
 Qed.
 
 (* the owner dies while handling a record: nothing is emitted; the one wait of the record it was about to emit may
